@@ -5,7 +5,11 @@ models, under- and over-determined) and a Gaussian-type prior (Gaussian in every
 GMRF with every boundary condition / order / physical dimension, JointGaussianSqrtPrec), built
 through JointDistribution conditioning, the Posterior constructors or the legacy 5-tuple, and
 sampled through both sampler interfaces from several current states with the inner CGLS forced
-to convergence.  UGLA: LMRF priors (all bc, 1D/2D, zero / non-zero location), several beta.
+to convergence (maxit large, tol 1e-13; cuqi.solver.CGLS.solve is watched through a recording pass-through).  UGLA: LMRF priors (all bc, 1D/2D, zero / non-zero location), several beta.
+Re-use histories: the same prior / noise objects (and Posterior) used by a first sampler, then one parameter
+re-assigned in place (prior mean / cov / prec / sqrtcov / sqrtprec, noise matrix, GMRF prec / mean, LMRF scale /
+location), then a second sampler of either interface, reinitialize() or target re-assignment on the same sampler,
+judged against the closed form for the CURRENT parameters.
 
 Monitors: the global normal stream is scripted (vlib/rngscript.Scripted / ScriptedRNG): the
 perturbation e of one step is dictated by the harness (0, unit vectors, random vectors), so the
@@ -48,12 +52,12 @@ REQUIRED_COUNTERS = {
               "rto_state_independence_checked": 450, "rto_chain_draws_checked": 450,
               "stacked_adjoint_checked": 12000, "stacked_normal_matrix_checked": 170,
               "ugla_mean_checked": 100, "ugla_cov_entries_checked": 3500, "ugla_affine_checked": 200,
-              "normal_draws_scripted": 5000, "cgls_solves_observed": 5000},
+              "normal_draws_scripted": 5000, "cgls_solves_observed": 5000, "reuse_histories_checked": 40},
     "thorough": {"rto_mean_checked": 1300, "rto_cov_entries_checked": 60000, "rto_affine_checked": 2500,
                  "rto_state_independence_checked": 4000, "rto_chain_draws_checked": 4000,
                  "stacked_adjoint_checked": 150000, "stacked_normal_matrix_checked": 1400,
                  "ugla_mean_checked": 700, "ugla_cov_entries_checked": 25000, "ugla_affine_checked": 1400,
-                 "normal_draws_scripted": 40000, "cgls_solves_observed": 40000},
+                 "normal_draws_scripted": 40000, "cgls_solves_observed": 40000, "reuse_histories_checked": 240},
 }
 BUDGET_S = {"quick": 240.0, "thorough": 2400.0}
 
@@ -192,6 +196,41 @@ def cases(tier, seed):
                 c.update({"iface": ("exp", "legacy", "legacy_rng")[(rep + len(out)) % 3], "loc": loc, "bc": bc, "pd": 2, "N": r.choice([2, 3])})
                 c["n"] = c["N"] ** 2
                 out.append(c)
+        # R: re-use histories (first use, in-place re-assignment of a parameter, second use judged for the current values)
+        STAGE2 = [("new_sampler", "exp", "exp"), ("new_sampler", "exp", "legacy"), ("new_sampler", "legacy", "exp"),
+                  ("new_sampler", "legacy", "legacy"), ("reinitialize", "exp", "exp"), ("retarget", "exp", "exp")]
+        def _reuse(i, k, sampler, mutate, **kw):
+            st, i1, i2 = STAGE2[k % len(STAGE2)]
+            post2 = "same" if st == "reinitialize" else ("same", "rebuilt")[(k // len(STAGE2) + k) % 2]
+            return {"kind": "reuse", "i": i, "sampler": sampler, "mutate": mutate, "stage2": st, "iface1": i1, "iface2": i2, "post2": post2, **kw}
+        k = rep
+        for f in FORMS:
+            for mutate in ("prior_matrix", "noise_matrix", "prior_mean"):
+                if mutate == "prior_mean" and FORMS.index(f) % 3 != rep % 3:
+                    continue
+                n = r.randint(2, 7)
+                nl = r.choice([1, 1, 2])
+                liks = [_lik(r, n, m=r.randint(2, 7)) for _ in range(nl)]
+                prior = {"kind": "gaussian", "form": f if mutate != "noise_matrix" else r.choice(FORMS), "mean": r.choice(["vector", "vector", "scalar"])}
+                if mutate == "noise_matrix":
+                    liks[-1]["noise"] = f
+                out.append(_reuse(i, k, "rto", mutate, n=n, liks=liks, prior=prior)); i += 1; k += 1
+        for f in ("cov_scalar", "cov_vector", "cov_diag", "cov_full", "cov_sparse"):   # cov-specified priors once more per stage-2 flavour
+            for kk in range(len(STAGE2)):
+                n = r.randint(2, 7)
+                out.append(_reuse(i, kk, "rto", "prior_matrix", n=n, liks=[_lik(r, n, m=r.randint(2, 7))],
+                                  prior={"kind": "gaussian", "form": f, "mean": r.choice(["vector", "scalar"])})); i += 1
+        for bc in BCS:
+            for mutate in ("prior_matrix", "prior_mean", "noise_matrix"):
+                order, pd = r.choice([0, 1, 2]), r.choice([1, 1, 2])
+                N = _gmrf_n(r, pd, order)
+                out.append(_reuse(i, k, "rto", mutate, n=N ** pd, liks=[_lik(r, N ** pd, m=r.randint(5, 8))],
+                                  prior={"kind": "gmrf", "bc": bc, "order": order, "pd": pd, "N": N, "mean": "vector"})); i += 1; k += 1
+        for bc in BCS:
+            for mutate in ("lmrf_scale", "lmrf_location", "noise_matrix"):
+                pd = r.choice([1, 1, 2]); N = r.randint(3, 7) if pd == 1 else r.choice([2, 3])
+                out.append(_reuse(i, k, "ugla", mutate, pd=pd, N=N, n=N ** pd, bc=bc, loc=("scalar" if mutate == "lmrf_location" else r.choice(["zero", "scalar"])),
+                                  m=r.randint(4, 9), model=r.choice(MODELS), noise=r.choice(FORMS), beta=r.choice([1e-5, 1e-3, 1e-1]))); i += 1; k += 1
     n_rand = 240 if tier == "quick" else 2400
     for _ in range(n_rand):
         out.append(_random_rto(r, i)); i += 1
@@ -209,17 +248,22 @@ def cases(tier, seed):
     # domain geometry is DESIGN.md #23 (another property), and Image2D(visual_only=True) makes the MRF one-dimensional
     for c in out:
         # a 1x1 scipy.sparse matrix as noise covariance/precision is a degenerate input (refused with assorted exceptions)
-        for l in (c["liks"] if c["kind"] == "rto" else [c]):
+        for l in (c["liks"] if "liks" in c else [c]):
             if l["noise"].endswith("_sparse") and l["m"] < 2:
                 l["m"] = 2
-        if c["kind"] == "ugla" and c["pd"] == 2:
+        if "liks" not in c and c["pd"] == 2:
             c["model"] = "function"
-        if c["kind"] == "rto" and c["prior"].get("pd") == 2:
+        if "liks" in c and c["prior"].get("pd") == 2:
             for l in c["liks"]:
                 l["model"] = "function"
     return out
 
 def _cfg(case):
+    if case["kind"] == "reuse":
+        base = {"history": case["mutate"], "stage2": case["stage2"], "post2": case["post2"], "iface1": case["iface1"]}
+        if case["sampler"] == "ugla":
+            return {"sampler": "UGLA", "iface": case["iface2"], "loc": case["loc"], "bc": case["bc"], "pd": case["pd"], **base}
+        return {**_cfg({**case, "kind": "rto", "iface": case["iface2"], "build": "direct"}), **base}
     if case["kind"] == "ugla":
         return {"sampler": "UGLA", "iface": case["iface"], "loc": case["loc"], "bc": case["bc"], "pd": case["pd"]}
     p = case["prior"]
@@ -621,6 +665,7 @@ def _gen_rto_problem(cuqi, case, rs):
             D = S.diff_op(N, p["bc"], p["order"], pd)
             reg = 0.0 if p["bc"] == "zero" else np.sqrt(np.finfo(float).eps)
             P0 = delta * (D.T @ D + reg * np.eye(n))
+            ref.update(gmrf_P1=D.T @ D + reg * np.eye(n))
             if p["mean"] == "vector":
                 mu_lib = rs.standard_normal(n) * 2; mu = mu_lib.copy()
             elif p["mean"] == "scalar":
@@ -667,14 +712,25 @@ def _build_rto(cuqi, case, prob, x_init):
         fam, val = prob["noise"][0]
         target = (prob["ds"][0].copy(), prob["mods"][0], val, prob["mu_lib"], prob["prior_val"])
         return cuqi.sampler.LinearRTO(target, x0=x_init, **sa)
+    x, ys = _build_dists(cuqi, prob)
+    post = _build_posterior(cuqi, case["build"], x, ys, prob["ds"])
+    return _make_rto(cuqi, case["iface"], post, x_init, sa)
+
+def _build_dists(cuqi, prob):
+    D = cuqi.distribution
     x = prob["mk_prior"]()
     ys = [D.Gaussian(model @ x, **{fam: val}, name=f"y{j}") for j, (model, (fam, val)) in enumerate(zip(prob["mods"], prob["noise"]))]
-    if case["build"] == "joint":
-        post = D.JointDistribution(x, *ys)(**{f"y{j}": d.copy() for j, d in enumerate(prob["ds"])})
-    else:
-        liks = [y.to_likelihood(d.copy()) for y, d in zip(ys, prob["ds"])]
-        post = D.Posterior(liks[0], x) if len(liks) == 1 else D.MultipleLikelihoodPosterior(*liks, x)
-    if case["iface"] == "exp":
+    return x, ys
+
+def _build_posterior(cuqi, build, x, ys, ds):
+    D = cuqi.distribution
+    if build == "joint":
+        return D.JointDistribution(x, *ys)(**{f"y{j}": d.copy() for j, d in enumerate(ds)})
+    liks = [y.to_likelihood(d.copy()) for y, d in zip(ys, ds)]
+    return D.Posterior(liks[0], x) if len(liks) == 1 else D.MultipleLikelihoodPosterior(*liks, x)
+
+def _make_rto(cuqi, iface, post, x_init, sa):
+    if iface == "exp":
         s = cuqi.experimental.mcmc.LinearRTO(post, initial_point=x_init, **sa)
         s.initialize()
         return s
@@ -797,22 +853,204 @@ def _run_ugla(case, ctx):
     if kind == "crashed":
         raise val2
     sampler, holder = val2
-    all_ok = True
     for si, (xk, (xm, C, H, rhs)) in enumerate(zip(states, refs)):
         drawer = ExpDrawer(ctx, cfg, sampler) if case["iface"] == "exp" else LegacyDrawer(ctx, cfg, sampler, holder)
         # the local Gaussian depends on the current state: every transition of this read-off starts at x_k
         res = _read_affine(ctx, cfg, drawer, xm, C, rs, (xk, xk), "ugla", float(np.linalg.cond(H)), check_state_indep=False)
         if res is None:
             return
-        all_ok = all_ok and res[2]
         if case["iface"] == "exp":
             # sampler.M now refers to the approximation at x_k (last transition started there)
             _check_stacked(ctx, cfg, sampler, n, H if d_loc == "zero" else None, rhs if d_loc == "zero" else None, rs, tag="stacked")
     ctx.note("D_loc", d_loc)
     ctx.nontrivial()
 
+# --------------------------------------------------------------------------- re-use histories
+
+def _likelihood_dists(post):
+    """The noise distribution objects the posterior actually holds."""
+    liks = post.likelihoods if hasattr(post, "likelihoods") else [post.likelihood]
+    return [l.distribution for l in liks]
+
+def _stage2(cuqi, case, sampler1, post, x, ys, ds, x_init, make):
+    """Second use after the in-place re-assignment. Returns the sampler to judge."""
+    st = case["stage2"]
+    if st == "reinitialize":                      # same (experimental) sampler, public reinitialize()
+        sampler1.reinitialize()
+        return sampler1
+    if case["post2"] == "rebuilt":                # a new Posterior around the very same prior / noise objects
+        post2 = _build_posterior(cuqi, "direct", x, ys, ds) if case["sampler"] == "rto" else cuqi.distribution.Posterior(ys[0].to_likelihood(ds[0].copy()), x)
+    else:
+        post2 = post
+    if st == "retarget":                          # same (experimental) sampler, target re-assigned, then reinitialize()
+        sampler1.target = post2
+        sampler1.reinitialize()
+        return sampler1
+    return make(case["iface2"], post2, x_init)    # a second sampler (either interface)
+
+def _run_reuse_rto(case, ctx):
+    import cuqi
+    cfg = {**_cfg({**case, "kind": "rto", "iface": case["iface2"], "build": "direct"}), "history": case["mutate"],
+           "stage2": case["stage2"], "post2": case["post2"], "iface1": case["iface1"]}
+    rs = core.np_rng(ctx.seed, PROPERTY, core.canon(case))
+    prob = _gen_rto_problem(cuqi, case, rs)
+    if prob is None:
+        ctx.inconclusive("generator could not produce a posterior with bounded condition number"); return
+    n, p = case["n"], case["prior"]
+    sa = _solver_args(sum(l["m"] for l in case["liks"]) + 3 * n)
+    sA, sB = _states(rs, n, prob["xm"], prob["C"])
+    make = lambda iface, post, x_init: _make_rto(cuqi, iface, post, x_init, sa)
+
+    def stage1():
+        x, ys = _build_dists(cuqi, prob)
+        post = _build_posterior(cuqi, "direct", x, ys, prob["ds"])
+        return x, ys, post, make(case["iface1"], post, sA.copy())
+    kind, val = core.outcome(stage1, refusal=_BUILD_REFUSALS)
+    if kind == "refused":
+        ctx.refused("build:reuse:" + cfg["prior"] + ":" + cfg.get("prior_form", cfg.get("bc", "")), val); ctx.count("build_refused"); return
+    if kind == "crashed":
+        raise val
+    x, ys, post, s1 = val
+    d1 = ExpDrawer(ctx, cfg, s1) if case["iface1"] == "exp" else LegacyDrawer(ctx, cfg, s1)
+    # ---- first use (fills whatever the objects cache); judged on its offset only
+    x0 = d1.draw(sA, None)
+    sd = float(np.sqrt(np.max(np.diag(prob["C"]))))
+    tol1 = _xtol(max(float(np.max(np.abs(prob["xm"]))), sd), prob["cond"], float(np.linalg.norm(sA - prob["xm"])) + 20 * sd * np.sqrt(n),
+                 float(np.max(np.abs(sA))) + float(np.max(np.abs(prob["xm"]))) + 20 * sd, d1.loosest_tol)
+    ctx.count("reuse_stage1_mean_checked")
+    if not ctx.close(x0, prob["xm"], rtol=0.0, atol=tol1):
+        ctx.violation("rto_mean_mismatch", {**cfg, "stage": 1}, detail=f"first use: zero-perturbation draw off by {np.max(np.abs(x0 - prob['xm'])):.3g} (sd {sd:.3g})")
+    # ---- in-place re-assignment on the objects the posterior holds, new closed form
+    mut = case["mutate"]
+    new = None
+    for attempt in range(6):
+        P0, mu, Ps = prob["P0"], prob["mu"], list(prob["Ps"])
+        if mut == "prior_mean":
+            if p["mean"] == "scalar":
+                v = float(rs.choice([-0.4, 1.9, 3.1])); mu = np.full(n, v)
+            else:
+                v = rs.standard_normal(n) * 2; mu = v.copy()
+            action = lambda v=v: setattr(post.prior, "mean", v)
+        elif mut == "prior_matrix":
+            if p["kind"] == "gmrf":
+                delta = float(rs.choice([0.2, 1.5, 8.0, 40.0])); P0 = delta * prob["gmrf_P1"]
+                action = lambda delta=delta: setattr(post.prior, "prec", delta)
+            else:
+                fam, v, P0 = _gen_form(rs, p["form"], n, float(rs.choice([0.1, 0.6, 3.0])))
+                action = lambda fam=fam, v=v: setattr(post.prior, fam, v)
+        else:                                   # noise_matrix of the last likelihood
+            j = len(case["liks"]) - 1
+            fam, v, Pj = _gen_form(rs, case["liks"][j]["noise"], case["liks"][j]["m"], float(rs.choice([0.02, 0.5, 2.5])))
+            Ps[j] = Pj
+            action = lambda fam=fam, v=v, j=j: setattr(_likelihood_dists(post)[j], fam, v)
+        xm2, C2, H2, rhs2 = G.posterior(prob["As"], Ps, prob["ds"], P0, mu)
+        if float(np.linalg.cond(H2)) <= COND_MAX:
+            new = (xm2, C2, H2, rhs2); break
+    if new is None:
+        ctx.inconclusive("generator could not produce a re-assigned posterior with bounded condition number"); return
+    xm2, C2, H2, rhs2 = new
+    kind, val = core.outcome(action, refusal=_BUILD_REFUSALS)
+    if kind == "refused":
+        ctx.refused("reassign:" + mut, val); ctx.count("build_refused"); return
+    if kind == "crashed":
+        raise val
+    moved = float(np.max(np.abs(xm2 - prob["xm"]))) / sd
+    kind, val = core.outcome(_stage2, cuqi, case, s1, post, x, ys, prob["ds"], sA.copy(), make, refusal=_BUILD_REFUSALS)
+    if kind == "refused":
+        ctx.refused("stage2:" + case["stage2"], val); ctx.count("build_refused"); return
+    if kind == "crashed":
+        raise val
+    s2 = val
+    d2 = ExpDrawer(ctx, cfg, s2) if isinstance(s2, cuqi.experimental.mcmc.LinearRTO) else LegacyDrawer(ctx, cfg, s2)
+    sA2, sB2 = _states(rs, n, xm2, C2)
+    res = _read_affine(ctx, cfg, d2, xm2, C2, rs, (sA2, sB2), "rto", float(np.linalg.cond(H2)))
+    if res is None:
+        return
+    _check_stacked(ctx, cfg, s2, n, H2, rhs2, rs)
+    ctx.count("reuse_histories_checked")
+    ctx.note("posterior_mean_moved_in_sd", moved)
+    ctx.nontrivial()
+
+def _run_reuse_ugla(case, ctx):
+    import cuqi
+    D_ = cuqi.distribution
+    rs = core.np_rng(ctx.seed, PROPERTY, core.canon(case))
+    n, N1, pd, bc, m, beta = case["n"], case["N"], case["pd"], case["bc"], case["m"], case["beta"]
+    Dm = S.diff_op(N1, bc, 1, pd)
+    mkgeom = lambda: cuqi.geometry.Continuous1D(N1) if pd == 1 else cuqi.geometry.Image2D((N1, N1))
+    mut = case["mutate"]
+    for attempt in range(8):
+        scale = float(rs.choice([0.05, 0.3, 2.0]))
+        loc_lib = float(rs.choice([0.8, -1.5])) if case["loc"] == "scalar" else 0
+        A, model = _gen_model(cuqi, rs, case["model"], m, n, mkgeom())
+        fam, val, P = _gen_form(rs, case["noise"], m, float(rs.choice([0.05, 0.3, 1.0])))
+        d = A @ (loc_lib + rs.standard_normal(n)) + rs.standard_normal(m)
+        xk = rs.standard_normal(n) * 2
+        scale2, loc2, P2, action_spec = scale, loc_lib, P, None
+        if mut == "lmrf_scale":
+            scale2 = float(rs.choice([v for v in (0.02, 0.15, 0.9, 4.0) if v != scale])); action_spec = ("prior", "scale", scale2)
+        elif mut == "lmrf_location":
+            loc2 = float(rs.choice([0.3, -2.2, 1.1])); action_spec = ("prior", "location", loc2)
+        else:
+            fam, v2, P2 = _gen_form(rs, case["noise"], m, float(rs.choice([0.02, 0.6, 2.0]))); action_spec = ("noise", fam, v2)
+        r1 = G.ugla_local(A, P, d, Dm, np.full(n, float(loc_lib)), scale, beta, xk)
+        r2 = G.ugla_local(A, P2, d, Dm, np.full(n, float(loc2)), scale2, beta, xk)
+        if max(float(np.linalg.cond(r1[2])), float(np.linalg.cond(r2[2]))) <= COND_MAX:
+            break
+    else:
+        ctx.inconclusive("generator could not produce a UGLA re-use problem with bounded condition number"); return
+    d_loc = "nonzero" if max(np.max(np.abs(Dm @ np.full(n, float(loc_lib)))), np.max(np.abs(Dm @ np.full(n, float(loc2))))) > 1e-12 else "zero"
+    cfg = {"sampler": "UGLA", "iface": case["iface2"], "iface1": case["iface1"], "loc": case["loc"], "bc": bc, "pd": pd, "D_loc": d_loc,
+           "history": mut, "stage2": case["stage2"], "post2": case["post2"]}
+    sa = _solver_args(m + Dm.shape[0])
+    def make(iface, post, x_init):
+        if iface == "exp":
+            s = cuqi.experimental.mcmc.UGLA(post, initial_point=x_init, beta=beta, **sa); s.initialize(); return s
+        return cuqi.sampler.UGLA(post, x0=x_init, beta=beta, **sa)
+    def stage1():
+        x = D_.LMRF(loc_lib, scale, bc_type=bc, geometry=mkgeom(), name="x")
+        y = D_.Gaussian(model @ x, **{fam: val}, name="y")
+        post = D_.Posterior(y.to_likelihood(d.copy()), x)
+        return x, y, post, make(case["iface1"], post, xk.copy())
+    kind, v = core.outcome(stage1, refusal=_BUILD_REFUSALS)
+    if kind == "refused":
+        ctx.refused("build:reuse:ugla", v); ctx.count("build_refused"); return
+    if kind == "crashed":
+        raise v
+    x, y, post, s1 = v
+    d1 = ExpDrawer(ctx, cfg, s1) if case["iface1"] == "exp" else LegacyDrawer(ctx, cfg, s1)
+    x0 = d1.draw(xk, None)
+    ctx.count("reuse_stage1_mean_checked")
+    sd = float(np.sqrt(np.max(np.diag(r1[1]))))
+    tol1 = _xtol(max(float(np.max(np.abs(r1[0]))), sd), float(np.linalg.cond(r1[2])), float(np.linalg.norm(xk - r1[0])) + 20 * sd * np.sqrt(n),
+                 float(np.max(np.abs(xk))) + float(np.max(np.abs(r1[0]))) + 20 * sd, d1.loosest_tol)
+    if not ctx.close(x0, r1[0], rtol=0.0, atol=tol1):
+        ctx.violation("ugla_mean_mismatch", {**cfg, "stage": 1}, detail=f"first use: zero-perturbation draw off by {np.max(np.abs(x0 - r1[0])):.3g} (sd {sd:.3g})")
+    who, attr, newval = action_spec
+    target_obj = post.prior if who == "prior" else post.likelihood.distribution
+    kind, v = core.outcome(setattr, target_obj, attr, newval, refusal=_BUILD_REFUSALS)
+    if kind == "refused":
+        ctx.refused("reassign:" + mut, v); ctx.count("build_refused"); return
+    if kind == "crashed":
+        raise v
+    kind, v = core.outcome(_stage2, cuqi, case, s1, post, x, [y], [d], xk.copy(), make, refusal=_BUILD_REFUSALS)
+    if kind == "refused":
+        ctx.refused("stage2:" + case["stage2"], v); ctx.count("build_refused"); return
+    if kind == "crashed":
+        raise v
+    s2 = v
+    d2 = ExpDrawer(ctx, cfg, s2) if isinstance(s2, cuqi.experimental.mcmc.UGLA) else LegacyDrawer(ctx, cfg, s2)
+    res = _read_affine(ctx, cfg, d2, r2[0], r2[1], rs, (xk, xk), "ugla", float(np.linalg.cond(r2[2])), check_state_indep=False)
+    if res is None:
+        return
+    ctx.count("reuse_histories_checked")
+    ctx.note("posterior_mean_moved_in_sd", float(np.max(np.abs(r2[0] - r1[0]))) / sd)
+    ctx.nontrivial()
+
 def run_case(case, ctx):
-    if case["kind"] == "rto":
+    if case["kind"] == "reuse":
+        (_run_reuse_rto if case["sampler"] == "rto" else _run_reuse_ugla)(case, ctx)
+    elif case["kind"] == "rto":
         _run_rto(case, ctx)
     else:
         _run_ugla(case, ctx)
